@@ -92,6 +92,29 @@ fn main() {
         s.meta("measured_cross_degree", json!(cross));
         let d = if th { 8 } else { 7 };
         if cross > d { s.degrade("cross degree above lattice order"); }
+        if cross == 0 {
+            // the premise run failed: the code inspects values (a comparison on Deg/Fr panics), so it is not a rational function and
+            // formal fractions cannot run it. Fall back to exact rationals on the non-singular lattice points (bounded, not complete).
+            par_lattice(16, d, |p| {
+                let ai = arri(p);
+                let (dref, aref) = (det_i(&ai), adj_i(&ai));
+                if dref == 0 { s.eval(false); return; }
+                let a = arrx::<4>(p, &[0]);
+                let inp = || json!(p);
+                for (site, got) in [
+                    ("row inverted", s.call("inv", inp, || rm::Mat4::<X>::build(&a).inverted().decode())),
+                    ("col inverted", s.call("inv", inp, || cm::Mat4::<X>::build(&a).inverted().decode())),
+                    ("row invert", s.call("inv", inp, || { let mut m = rm::Mat4::<X>::build(&a); m.invert(); m.decode() })),
+                    ("col invert", s.call("inv", inp, || { let mut m = cm::Mat4::<X>::build(&a); m.invert(); m.decode() })),
+                ] {
+                    s.eval(true);
+                    if let Some(g) = got { for i in 0..4 { for j in 0..4 { if g[i][j] != q(aref[i][j], dref) {
+                        s.violation_w(&format!("Mat4 {}", site), "not-adjugate-over-determinant", json!({"M_row_major_flat": p, "entry": [i, j], "got": jx(g[i][j]), "want": format!("{}/{}", aref[i][j], dref)}), p.iter().sum::<i64>() as u64); } } } }
+                }
+            });
+            s.meta("fallback", json!("exact rationals on non-singular lattice points (premise failed)"));
+            return;
+        }
         par_lattice(16, d, |p| {
             let ai = arri(p);
             let (dref, aref) = (det_i(&ai), adj_i(&ai));
@@ -115,18 +138,47 @@ fn main() {
         s.meta("lattice", json!({"n": 16, "order": d, "points": lattice_count(16, d).to_string()}));
     });
 
-    rep.section("general 4x4 inverse is two-sided (exact rationals)", "L(16, 3 quick / 4 thorough) translated to a non-singular base point: M * inverted(M) = inverted(M) * M = I for both layouts wherever det != 0; non-trivial: all non-singular points", true, false, |s| {
+    rep.section("general 4x4 inverse is two-sided (exact rationals)", "L(16, 3 quick / 4 thorough) translated to a non-singular base point: M * inverted(M) = inverted(M) * M = I for both layouts wherever det != 0, for M and for M scaled by 2^-20 and 2^20 (determinants far below / above the element type's epsilon); f64 and f32: inverted(M * 2^-k) is bit for bit inverted(M) * 2^k (k = 20, 8; power-of-two scaling is exact); non-trivial: all non-singular points", true, false, |s| {
         let base = [2i64, 0, 1, 0, 0, 3, 0, 1, 1, 0, 1, 0, 0, 1, 0, 2];
-        s.require_classes(&["non-singular"]);
+        s.require_classes(&["non-singular", "tiny-determinant(|det| < epsilon)", "huge-determinant", "float power-of-two scaling"]);
         par_lattice(16, if th { 4 } else { 3 }, |p| {
-            let a = arrx::<4>(p, &base);
-            if det(&a) == qi(0) { s.eval(false); s.class("singular(skipped)"); return; }
+            let a0 = arrx::<4>(p, &base);
+            if det(&a0) == qi(0) { s.eval(false); s.class("singular(skipped)"); return; }
             s.class("non-singular");
             let id = ident::<X, 4>();
-            for (site, got) in [("row", s.call("inv", || jmat(&a), || { let m = rm::Mat4::<X>::build(&a); let i = m.inverted(); ((m * i).decode(), (i * m).decode()) })),
-                                ("col", s.call("inv", || jmat(&a), || { let m = cm::Mat4::<X>::build(&a); let i = m.inverted(); ((m * i).decode(), (i * m).decode()) }))] {
-                s.eval(true);
-                if let Some((l, r)) = got { if l != id || r != id { s.violation_w(&format!("Mat4<{}>::inverted", site), "not-a-two-sided-inverse", json!({"M": jmat(&a), "M*inv": jmat(&l), "inv*M": jmat(&r)}), p.iter().sum::<i64>() as u64); } }
+            // the matrix itself and copies scaled by 2^-k and 2^k: the determinant scales by 2^(-4k), far below / above the
+            // epsilon of the element type (2^-52) - "every matrix with non-zero determinant" includes those
+            for k in [0i32, -20, 20] {
+                let sc = if k >= 0 { qi(1i128 << k) } else { q(1, 1i128 << -k) };
+                let mut a = a0; for i in 0..4 { for j in 0..4 { a[i][j] = a0[i][j] * sc; } }
+                s.class(if k == 0 { "unit-scale" } else if k < 0 { "tiny-determinant(|det| < epsilon)" } else { "huge-determinant" });
+                for (site, got) in [("row", s.call("inv", || jmat(&a), || { let m = rm::Mat4::<X>::build(&a); let i = m.inverted(); ((m * i).decode(), (i * m).decode()) })),
+                                    ("col", s.call("inv", || jmat(&a), || { let m = cm::Mat4::<X>::build(&a); let i = m.inverted(); ((m * i).decode(), (i * m).decode()) }))] {
+                    s.eval(true);
+                    if let Some((l, r)) = got { if l != id || r != id { s.violation_w(&format!("Mat4<{}>::inverted", site), "not-a-two-sided-inverse", json!({"M": jmat(&a), "scaled_by_2^": k, "M*inv": jmat(&l), "inv*M": jmat(&r)}), p.iter().sum::<i64>() as u64 + k.unsigned_abs() as u64); } }
+                }
+            }
+            let a = a0;
+            // floats: scaling by a power of two is exact, so inverted(M * 2^-k) must equal inverted(M) * 2^k bit for bit
+            {
+                let f64m: A<f64, 4> = std::array::from_fn(|i| std::array::from_fn(|j| a[i][j].shadow()));
+                let f32m: A<f32, 4> = std::array::from_fn(|i| std::array::from_fn(|j| a[i][j].shadow() as f32));
+                let base64 = rm::Mat4::<f64>::build(&f64m).inverted().decode();
+                let base32 = rm::Mat4::<f32>::build(&f32m).inverted().decode();
+                for k in [20i32, 8] {
+                    let (s64, s32) = (2f64.powi(-k), 2f32.powi(-k));
+                    let m64: A<f64, 4> = std::array::from_fn(|i| std::array::from_fn(|j| f64m[i][j] * s64));
+                    let m32: A<f32, 4> = std::array::from_fn(|i| std::array::from_fn(|j| f32m[i][j] * s32));
+                    let (g64r, g64c) = (rm::Mat4::<f64>::build(&m64).inverted().decode(), cm::Mat4::<f64>::build(&m64).inverted().decode());
+                    let (g32r, g32c) = (rm::Mat4::<f32>::build(&m32).inverted().decode(), cm::Mat4::<f32>::build(&m32).inverted().decode());
+                    s.evals(4, 4); s.class("float power-of-two scaling");
+                    let w64: A<f64, 4> = std::array::from_fn(|i| std::array::from_fn(|j| base64[i][j] / s64));
+                    let w32: A<f32, 4> = std::array::from_fn(|i| std::array::from_fn(|j| base32[i][j] / s32));
+                    let same64 = |g: &A<f64, 4>| (0..4).all(|i| (0..4).all(|j| g[i][j].to_bits() == w64[i][j].to_bits() || (g[i][j] == 0.0 && w64[i][j] == 0.0)));
+                    let same32 = |g: &A<f32, 4>| (0..4).all(|i| (0..4).all(|j| g[i][j].to_bits() == w32[i][j].to_bits() || (g[i][j] == 0.0 && w32[i][j] == 0.0)));
+                    if !same64(&g64r) || !same64(&g64c) { s.violation_w("Mat4<f64>::inverted", "inverse-of-a-power-of-two-scaled-matrix-is-not-the-scaled-inverse", json!({"M": jmat(&a), "scaled_by_2^": -k, "got_row0": format!("{:?}", g64r[0]), "want_row0": format!("{:?}", w64[0])}), p.iter().sum::<i64>() as u64); }
+                    if !same32(&g32r) || !same32(&g32c) { s.violation_w("Mat4<f32>::inverted", "inverse-of-a-power-of-two-scaled-matrix-is-not-the-scaled-inverse", json!({"M": jmat(&a), "scaled_by_2^": -k, "got_row0": format!("{:?}", g32r[0]), "want_row0": format!("{:?}", w32[0])}), p.iter().sum::<i64>() as u64); }
+                }
             }
             if s.wants_sample() { s.sample(json!({"M": jmat(&a), "law": "M*inv == I == inv*M"})); }
         });
